@@ -6,6 +6,7 @@ import tempfile
 import itertools
 
 import families
+from gen import header
 from core import Driver, cps, uncps
 from props.C08 import diag_req, parse_human
 
@@ -34,7 +35,7 @@ def sequences(tier, rng):
 
 def run(res, tier, br, model_ok=True, search=False):
     import random
-    from impl import main_inprocess, pipeline, run_cli
+    from impl import main_inprocess, pipeline, run_cli, pipeline_fresh
     rng = random.Random(res.seed + 17)
     cls = families.file_classes(rng)
     tmp = tempfile.mkdtemp(prefix="verif_c04_")
@@ -45,11 +46,23 @@ def run(res, tier, br, model_ok=True, search=False):
             d = os.path.join(tmp, f"s{si}")
             os.makedirs(d)
             names = []
+            texts = []
             for k, c in enumerate(seq):
                 nm = f"f{k}_{c}.c"
-                with open(os.path.join(d, nm), "w") as f:
-                    f.write(rng.choice(cls[c]))
+                text = rng.choice(cls[c])
+                # files of one run that mention the same macro: a header whose only fault is that its guard is
+                # never defined, right after a file that defines a macro of exactly that name
+                if c == "error" and k >= 1 and seq[k - 1] in ("clean", "notice") and si % 2 == 0 and texts[-1].startswith("/* ****"):
+                    nm = f"f{k}_{c}.h"
+                    g = nm.upper().replace(".", "_")
+                    text = header.header42(nm) + f"\n#ifndef {g}\n\nint\tf(void);\n\n#endif\n"
+                    hdr_end = texts[-1].index("\n", texts[-1].rindex("*/")) + 1
+                    texts[-1] = texts[-1][:hdr_end] + f"\n#define {g} 1\n" + texts[-1][hdr_end:]
                 names.append(nm)
+                texts.append(text)
+            for nm, text in zip(names, texts):
+                with open(os.path.join(d, nm), "w") as f:
+                    f.write(text)
             variants = [("paths", list(names), [])]
             if si % 3 == 0:
                 variants.append(("paths-nocolor", list(names), ["--no-colors"]))
@@ -71,7 +84,9 @@ def run(res, tier, br, model_ok=True, search=False):
                 vnames = argv if vname.startswith("paths") else names
                 for nm in vnames:
                     src = open(os.path.join(d, nm)).read()
-                    r = pipeline(nm, src)
+                    # the reference for a file that shares a macro name with another file of the run is its
+                    # analysis in a fresh interpreter (nothing an earlier run may have left behind)
+                    r = pipeline_fresh(nm, src) if nm.endswith(".h") else pipeline(nm, src)
                     outcomes.append((nm, r))
                 replay = {"kind": "cli", "classes": list(seq), "variant": vname, "opts": opts,
                           "files": {nm: open(os.path.join(d, nm)).read() for nm in names}}
@@ -177,7 +192,8 @@ def replay(rp):
             open(os.path.join(d, nm), "w").write(src)
         argv = ["."] if rp["variant"] == "dir" else names
         out = main_inprocess(rp["opts"] + argv, d)
-        outcomes = [(nm, pipeline(nm, rp["files"][nm])) for nm in names]
+        from impl import pipeline_fresh
+        outcomes = [(nm, pipeline_fresh(nm, rp["files"][nm]) if nm.endswith(".h") else pipeline(nm, rp["files"][nm])) for nm in names]
         print("classes :", rp["classes"], rp["variant"])
         print("stdout  :", out["stdout"][:600])
         print("exit    :", out["exit"], out.get("exc"))
